@@ -1539,14 +1539,20 @@ class sptensor:
                 "Cannot call nvecs on sptensor with only singleton dimensions"
             )
         # Transposed mode-n unfolding, built directly so that singleton modes survive
-        old_shape = tuple(np.array(self.shape)[old])
-        ncols = int(np.prod(old_shape))
+        if self.nnz == 0:
+            # nothing stored: the Gram matrix is zero whatever the lengths of the modes
+            ncols = 1
+        elif old.size > 0:
+            # Number the distinct column subscripts that occur: empty columns do not
+            # contribute to the Gram matrix, and the full column count (product of the
+            # other mode sizes) may exceed memory, 2**63 or the exact range of floats
+            _, cols = np.unique(self.subs[:, old], axis=0, return_inverse=True)
+            cols = np.asarray(cols).reshape(-1)
+            ncols = int(cols.max()) + 1
+        else:
+            cols = np.zeros(self.nnz, dtype=int)
+            ncols = 1
         if self.nnz > 0:
-            cols = (
-                tt_sub2ind(old_shape, self.subs[:, old])
-                if old.size > 0
-                else np.zeros(self.nnz, dtype=int)
-            )
             tnt = sparse.coo_matrix(
                 (self.vals.transpose()[0].astype(float), (cols, self.subs[:, n])),
                 shape=(ncols, self.shape[n]),
@@ -1556,7 +1562,11 @@ class sptensor:
         y = tnt.transpose().dot(tnt)
         if r < y.shape[0] - 1:
             # y is real symmetric: real eigenvectors, leading eigenvalue first
-            w, v = scipy.sparse.linalg.eigsh(y, r)
+            # ARPACK's convergence test has an absolute floor (eps**(2/3)): a Gram matrix
+            # far below one would be solved to a few digits only, so solve a scaled copy
+            # (the eigenvectors are the same)
+            scale = abs(y).max() if y.nnz else 0
+            w, v = scipy.sparse.linalg.eigsh(y / scale if scale > 0 else y, r)
             v = v[:, (-np.abs(w)).argsort()]
         else:
             logging.debug(
